@@ -1,7 +1,10 @@
 /-
-  Property C05 — construction and conversion are lossless.  Property theorems only.
+  Property C05 — construction and conversion are lossless.  Property theorems only
+  (helpers: Lemmas/Build.lean, Lemmas/Compress.lean).
 -/
 import SparseV.Lemmas.Rewrite
+import SparseV.Lemmas.Build
+import SparseV.Lemmas.Compress
 import SparseV.Model.Convert
 namespace SparseV.C05
 open SparseV SparseV.COO
@@ -13,5 +16,223 @@ theorem sort_preserves_get (shape : List Nat) (es : List (Idx × α)) (fill : α
     (hnd : (keysOf es).Nodup) :
     lookup (sortEntries shape es) fill i = lookup es fill i :=
   lookup_sortEntries shape es fill i hnd
+
+/-! ### 1. the constructor sums repeated coordinates -/
+
+/-- **build_get.** The COO constructor with its default flags, given in-bounds coordinates in ANY
+order WITH repeats, yields an array whose value at `i` is the sum of all data given for `i` (the
+fill value when `i` was not given) — with or without `prune`, for every index `i` (in or out of
+bounds). -/
+theorem build_get (shape : List Nat) (es : List (Idx × Int)) (fill : Int) (prune : Bool)
+    (hwf : ∀ e ∈ es, InB e.1 shape) (i : Idx) :
+    (COO.build shape es fill false true prune).get i =
+      if i ∈ keysOf es then ((es.filter (fun e => e.1 = i)).map (·.2)).sum else fill :=
+  build_lookup shape es fill prune hwf i
+
+/-- **build_get_nodup.** Without repeats the constructor stores exactly the given values. -/
+theorem build_get_nodup (shape : List Nat) (es : List (Idx × Int)) (fill : Int) (prune : Bool)
+    (hwf : ∀ e ∈ es, InB e.1 shape) (hnd : (keysOf es).Nodup) (i : Idx) :
+    (COO.build shape es fill false true prune).get i = lookup es fill i :=
+  build_lookup_nodup shape es fill prune hwf hnd i
+
+/-- non-vacuity: unsorted coordinates with a repeat, in bounds; the repeated index sums -/
+example : ∀ e ∈ [([1, 1], (5 : Int)), ([0, 1], 2), ([1, 1], -3)], InB e.1 [2, 2] := by decide
+example : (([([1, 1], (5 : Int)), ([0, 1], 2), ([1, 1], -3)].filter (fun e => e.1 = [1, 1])).map (·.2)).sum = 2 := by
+  decide
+example : (COO.build [2, 2] [([1, 1], (5 : Int)), ([0, 1], 2), ([1, 1], -3)] 0 false true true).get [1, 1] = 2 := by
+  rw [build_get _ _ _ _ (by decide)]; decide
+
+/-! ### 2. dense ↔ COO -/
+
+/-- **allIdx facts**: `allIdx s` is the row-major enumeration: `prod s` indices, exactly the in-bounds
+ones, without repeats, the `k`-th being the index of linear location `k`. -/
+theorem allIdx_facts (s : List Nat) :
+    (allIdx s).length = prod s ∧ (∀ i, i ∈ allIdx s ↔ InB i s) ∧ (allIdx s).Nodup ∧
+    ∀ k (hk : k < (allIdx s).length), ravel ((allIdx s)[k]) s = k :=
+  ⟨allIdx_length s, fun _ => mem_allIdx, allIdx_nodup s, ravel_allIdx_getElem s⟩
+
+/-- **fromDense_todense.** `COO.from_numpy(a).todense() == a` for every shape, data and fill value. -/
+theorem fromDense_todense [DecidableEq α] (shape : List Nat) (flat : List α) (fill : α)
+    (h : flat.length = prod shape) : (COO.fromDense shape flat fill).todense = flat :=
+  fromDense_todense' shape flat fill h
+
+/-- **todense_fromDense.** For a canonical `x` (in bounds, strictly increasing linear locations)
+with no stored fill values, `COO.from_numpy(x.todense(), fill_value=x.fill_value)` is `x` itself:
+same shape, same fill AND the same stored entries in the same order (equality of representations). -/
+theorem todense_fromDense [DecidableEq α] (x : COO α) (hwf : x.WF) (hs : SortedLin x.shape x.entries)
+    (hnf : x.NoFill) : COO.fromDense x.shape x.todense x.fill = x := by
+  have h := todense_fromDense_entries x hwf hs hnf
+  cases x with
+  | mk shape entries fill =>
+    simp only [COO.fromDense] at h ⊢
+    rw [h]
+
+/-- **todense_fromDense_get.** For ANY `x` (no canonicity needed) the round trip through dense keeps
+every in-bounds value, and the result is canonical. -/
+theorem todense_fromDense_get [DecidableEq α] (x : COO α) (i : Idx) (hi : InB i x.shape) :
+    (COO.fromDense x.shape x.todense x.fill).get i = x.get i :=
+  fromDense_get x.shape x.get x.fill i hi
+
+def exD : COO Int := { shape := [2, 3], entries := [([0, 1], 5), ([1, 2], 7)], fill := 0 }
+example : exD.WF ∧ SortedLin exD.shape exD.entries ∧ exD.NoFill := by
+  refine ⟨by decide, by unfold SortedLin lin; decide, by unfold COO.NoFill; decide⟩
+example : ([0, 5, 0, 0, 0, 7] : List Int).length = prod [2, 3] := by decide
+example : exD.todense = [0, 5, 0, 0, 0, 7] ∧ (COO.fromDense [2, 3] [0, 5, 0, 0, 0, 7] (0 : Int)).entries = exD.entries := by
+  decide
+
+/-! ### 3. indptr -/
+
+/-- **uncompress_indptrOf.** `uncompress_dimension(cumsum(bincount(rows, minlength=R)))` gives back
+`rows` for every non-decreasing list of row numbers below `R` — the CSR row pointer loses nothing. -/
+theorem uncompress_indptrOf (rows : List Nat) (R : Nat) (hs : rows.Pairwise (· ≤ ·))
+    (hlt : ∀ r ∈ rows, r < R) : uncompress (indptrOf rows R) = rows :=
+  uncompress_indptrOf' rows R hs hlt
+
+example : ([0, 0, 2, 3, 3] : List Nat).Pairwise (· ≤ ·) ∧ ∀ r ∈ ([0, 0, 2, 3, 3] : List Nat), r < 5 := by decide
+example : indptrOf [0, 0, 2, 3, 3] 5 = [0, 2, 2, 3, 5, 5] ∧ uncompress [0, 2, 2, 3, 5, 5] = [0, 0, 2, 3, 3] := by decide
+
+/-! ### 4. COO → GCXS → COO -/
+
+/-- **tocoo_fromCoo_get.** For a well-formed COO array of rank ≥ 2 with distinct stored indices and
+any valid `compressed_axes` (strictly increasing, in range, fewer than the rank), compressing and
+converting back reads the same value at every index and keeps shape and fill value; the result is
+again well-formed with distinct stored indices. -/
+theorem tocoo_fromCoo_get (x : COO Int) (caxes : List Nat) (_hn : 2 ≤ x.shape.length) (hwf : x.WF)
+    (hnd : (keysOf x.entries).Nodup) (hinc : caxes.Pairwise (· < ·))
+    (hlt : ∀ a ∈ caxes, a < x.shape.length) (_hlen : caxes.length < x.shape.length) :
+    (∀ i, InB i x.shape → (GCXS.fromCooCore x caxes).tocoo.get i = x.get i) ∧
+    (GCXS.fromCooCore x caxes).tocoo.shape = x.shape ∧ (GCXS.fromCooCore x caxes).tocoo.fill = x.fill ∧
+    (GCXS.fromCooCore x caxes).tocoo.WF ∧ (keysOf (GCXS.fromCooCore x caxes).tocoo.entries).Nodup := by
+  obtain ⟨h1, h2, h3, h4, h5⟩ := GCXS.tocoo_fromCooCore x caxes hwf hnd
+    (hinc.imp (fun {a b} hab => by omega)) hlt
+  exact ⟨h5, h1, h2, h3, h4⟩
+
+/-- **tocoo_fromCoo_ok.** The same through the validating entry point `_from_coo`, for EVERY rank
+(0-d and 1-d included) and every accepted `compressed_axes`, the default choice included. -/
+theorem tocoo_fromCoo_ok (x : COO Int) (c : Option (List Nat)) (g : GCXS Int)
+    (h : GCXS.fromCoo x c = .ok g) (hwf : x.WF) (hnd : (keysOf x.entries).Nodup) :
+    (∀ i, InB i x.shape → g.tocoo.get i = x.get i) ∧ g.tocoo.shape = x.shape ∧ g.tocoo.fill = x.fill ∧
+    g.tocoo.WF ∧ (keysOf g.tocoo.entries).Nodup := by
+  obtain ⟨h1, h2, h3, h4, h5⟩ := GCXS.tocoo_fromCoo x c g h hwf hnd
+  exact ⟨h5, h1, h2, h3, h4⟩
+
+/-- the transpose stage of the chain, for any axis permutation (also what C08 needs) -/
+theorem transpose_get (x : COO α) (axes : List Nat) (hp : axes.Perm (List.range x.shape.length))
+    (hwf : x.WF) (hnd : (keysOf x.entries).Nodup) (j : Idx) (hj : InB j (gather x.shape axes)) :
+    (x.transposeCore axes).get j = x.get (gather j (invPerm axes)) :=
+  transposeCore_get x axes hp hwf hnd j hj
+
+def exG : COO Int := { shape := [2, 3], entries := [([1, 2], 7), ([0, 1], 5)], fill := 0 }
+example : 2 ≤ exG.shape.length ∧ exG.WF ∧ (keysOf exG.entries).Nodup ∧ ([1] : List Nat).Pairwise (· < ·) ∧
+    (∀ a ∈ ([1] : List Nat), a < exG.shape.length) ∧ ([1] : List Nat).length < exG.shape.length := by
+  refine ⟨by decide, by decide, by decide, by decide, by decide, by decide⟩
+example : ∃ g, GCXS.fromCoo exG (some [1]) = .ok g := ⟨_, rfl⟩
+example : ([1, 0] : List Nat).Perm (List.range exG.shape.length) := by decide
+
+/-! ### 5. any history of conversions -/
+
+/-- two arrays (in any formats) denote the same abstract array -/
+def absEq (a b : SArr Int) : Prop :=
+  a.toCoo.shape = b.toCoo.shape ∧ a.toCoo.fill = b.toCoo.fill ∧
+  ∀ i, InB i a.toCoo.shape → a.toCoo.get i = b.toCoo.get i
+
+/-- the invariant carried along a history: read as COO, the array stores in-bounds, pairwise
+distinct indices -/
+def GoodArr (a : SArr Int) : Prop := a.toCoo.WF ∧ (keysOf a.toCoo.entries).Nodup
+
+/-- a history: convert through the formats `fs`, left to right -/
+def convertAll (a : SArr Int) (fs : List Fmt) : Except Err (SArr Int) :=
+  fs.foldlM (fun a f => a.convert f) a
+
+theorem absEq_refl (a : SArr Int) : absEq a a := ⟨rfl, rfl, fun _ _ => rfl⟩
+
+theorem absEq_trans {a b c : SArr Int} (h1 : absEq a b) (h2 : absEq b c) : absEq a c :=
+  ⟨h1.1.trans h2.1, h1.2.1.trans h2.2.1, fun i hi => (h1.2.2 i hi).trans (h2.2.2 i (h1.1 ▸ hi))⟩
+
+/-- **chain_preserves.** If every single conversion step preserves the abstract array and an
+invariant `Good`, then so does EVERY history of conversions (any length, any formats). -/
+theorem chain_preserves (Good : SArr Int → Prop)
+    (hstep : ∀ a f b, SArr.convert a f = .ok b → Good a → absEq a b ∧ Good b) :
+    ∀ (fs : List Fmt) (a b : SArr Int), Good a → convertAll a fs = .ok b → absEq a b ∧ Good b := by
+  intro fs
+  induction fs with
+  | nil =>
+    intro a b hg h
+    simp only [convertAll, List.foldlM_nil, pure, Except.pure, Except.ok.injEq] at h
+    subst h
+    exact ⟨absEq_refl a, hg⟩
+  | cons f fs ih =>
+    intro a b hg h
+    simp only [convertAll, List.foldlM_cons, bind, Except.bind] at h
+    cases hc : SArr.convert a f with
+    | error e => rw [hc] at h; cases h
+    | ok a' =>
+      rw [hc] at h
+      obtain ⟨h1, h2⟩ := hstep a f a' hc hg
+      obtain ⟨h3, h4⟩ := ih a' b h2 h
+      exact ⟨absEq_trans h1 h3, h4⟩
+
+/-- **step_preserves.** The single-step hypothesis holds for EVERY pair of formats
+(coo, gcxs with any accepted compressed axes, dok, dense): nothing is left as a hypothesis. -/
+theorem step_preserves (a : SArr Int) (f : Fmt) (b : SArr Int) (h : SArr.convert a f = .ok b)
+    (hg : GoodArr a) : absEq a b ∧ GoodArr b := by
+  have hgcxs : ∀ (c : Option (List Nat)), (GCXS.fromCoo a.toCoo c).map SArr.gcxs = .ok b →
+      absEq a b ∧ GoodArr b := by
+    intro c h
+    cases hf : GCXS.fromCoo a.toCoo c with
+    | error e => rw [hf] at h; cases h
+    | ok g =>
+      rw [hf] at h
+      simp only [Except.map, Except.ok.injEq] at h
+      subst h
+      obtain ⟨h1, h2, h3, h4, h5⟩ := GCXS.tocoo_fromCoo a.toCoo c g hf hg.1 hg.2
+      exact ⟨⟨h1.symm, h2.symm, fun i hi => (h5 i hi).symm⟩, h3, h4⟩
+  cases f with
+  | coo =>
+    simp only [SArr.convert, Except.ok.injEq] at h
+    subst h
+    exact ⟨absEq_refl _, hg⟩
+  | dok =>
+    simp only [SArr.convert, Except.ok.injEq] at h
+    subst h
+    obtain ⟨h1, h2, h3, h4, h5⟩ := GCXS.build_good a.toCoo.shape a.toCoo.entries a.toCoo.fill hg.1 hg.2
+    exact ⟨⟨h1.symm, h2.symm, fun i _ => (h5 i).symm⟩, h3, h4⟩
+  | dense =>
+    simp only [SArr.convert, Except.ok.injEq] at h
+    subst h
+    have hc := fromDense_canonical a.toCoo.shape a.toCoo.todense a.toCoo.fill
+    exact ⟨⟨rfl, rfl, fun i hi => (fromDense_get a.toCoo.shape a.toCoo.get a.toCoo.fill i hi).symm⟩,
+      hc.1, sortedLin_keys_nodup _ _ hc.2⟩
+  | gcxs c =>
+    cases a with
+    | gcxs g0 =>
+      simp only [SArr.convert] at h
+      split at h
+      · simp only [Except.ok.injEq] at h
+        subst h
+        exact ⟨absEq_refl _, hg⟩
+      · exact hgcxs c h
+    | coo x => exact hgcxs c h
+    | dok s es fl => exact hgcxs c h
+    | dense s fl d => exact hgcxs c h
+
+/-- **chain_preserves_all (the history quantifier, unconditional).** Starting from any good array —
+in particular any canonical COO — EVERY finite sequence of format conversions that succeeds ends in
+an array denoting the same abstract array (same shape, fill value, and value at every index). -/
+theorem chain_preserves_all (fs : List Fmt) (a b : SArr Int) (hg : GoodArr a)
+    (h : convertAll a fs = .ok b) : absEq a b ∧ GoodArr b :=
+  chain_preserves GoodArr step_preserves fs a b hg h
+
+/-- **roundtrip_via.** coo → f → coo for any format `f` (dense, dok, gcxs with any accepted axes)
+returns a COO with the same shape, fill and values. -/
+theorem roundtrip_via (x : COO Int) (f : Fmt) (b : SArr Int) (hwf : x.WF) (hnd : (keysOf x.entries).Nodup)
+    (h : convertAll (.coo x) [f, .coo] = .ok b) : absEq (.coo x) b :=
+  (chain_preserves_all [f, .coo] (.coo x) b ⟨hwf, hnd⟩ h).1
+
+/-- non-vacuity: a good array and a history that succeeds on it -/
+example : GoodArr (.coo exG) := by
+  refine ⟨by decide, by decide⟩
+example : ∃ b, convertAll (.coo exD) [.dense, .dok, .coo] = .ok b := ⟨_, rfl⟩
+example : ∃ b, SArr.convert (.coo exG) (.gcxs (some [0])) = .ok b := ⟨_, rfl⟩
 
 end SparseV.C05
